@@ -85,7 +85,7 @@ func FnSet(f, k, v tlx.Val) tlx.Val {
 }
 
 func Append(s tlx.Val, x tlx.Val) tlx.Val { return tlx.Tup(append(append([]tlx.Val{}, s.E...), x)...) }
-func Tail(s tlx.Val) tlx.Val             { return tlx.Tup(s.E[1:]...) }
+func Tail(s tlx.Val) tlx.Val              { return tlx.Tup(s.E[1:]...) }
 
 // Bags (module Bags): a function from elements to positive counts; <<>> is the empty bag.
 func BagAdd(b, x tlx.Val) tlx.Val {
@@ -250,9 +250,9 @@ func (v *view) WriteValue(_ distsys.ArchetypeInterface, val tla.Value) error {
 }
 
 func (v *view) PreCommit(distsys.ArchetypeInterface) chan error { return nil }
-func (v *view) Commit(distsys.ArchetypeInterface) chan struct{}  { return nil }
-func (v *view) Abort(distsys.ArchetypeInterface) chan struct{}   { return nil }
-func (v *view) Close() error                                      { return nil }
+func (v *view) Commit(distsys.ArchetypeInterface) chan struct{} { return nil }
+func (v *view) Abort(distsys.ArchetypeInterface) chan struct{}  { return nil }
+func (v *view) Close() error                                    { return nil }
 
 // ---- macros found in the shipped specs ---------------------------------------------------------------
 
@@ -268,5 +268,85 @@ func ReliableBagLink() Macro {
 			return BagRemove(cur, m), m, true
 		},
 		Write: func(_ *Store, cur tlx.Val, v tlx.Val, _ string) (tlx.Val, bool) { return BagAdd(cur, v), true },
+	}
+}
+
+func recGet(r tlx.Val, f string) tlx.Val            { return FnGet(r, tlx.Str(f)) }
+func recSet(r tlx.Val, f string, v tlx.Val) tlx.Val { return FnSet(r, tlx.Str(f), v) }
+
+// FIFOLinkRecord: pbkvs's ReliableFIFOLink over [queue |-> <<...>>, enabled |-> BOOLEAN].
+// Reading from a disabled link is an assertion failure in the spec; here the attempt
+// simply cannot proceed (a crashed node is never stepped again).
+func FIFOLinkRecord() Macro {
+	return Macro{
+		Read: func(_ *Store, cur tlx.Val, _ string) (tlx.Val, tlx.Val, bool) {
+			q := recGet(cur, "queue")
+			if !recGet(cur, "enabled").B || len(q.E) == 0 {
+				return cur, tlx.Val{}, false
+			}
+			return recSet(cur, "queue", Tail(q)), q.E[0], true
+		},
+		Write: func(_ *Store, cur tlx.Val, v tlx.Val, _ string) (tlx.Val, bool) {
+			if !recGet(cur, "enabled").B {
+				return cur, false
+			}
+			return recSet(cur, "queue", Append(recGet(cur, "queue"), v)), true
+		},
+	}
+}
+
+// NetworkToggle reads and writes the enabled flag of a link record.
+func NetworkToggle() Macro {
+	return Macro{
+		Read: func(_ *Store, cur tlx.Val, _ string) (tlx.Val, tlx.Val, bool) {
+			return cur, recGet(cur, "enabled"), true
+		},
+		Write: func(_ *Store, cur tlx.Val, v tlx.Val, _ string) (tlx.Val, bool) {
+			return recSet(cur, "enabled", v), true
+		},
+	}
+}
+
+// NetworkBufferLengthExact yields Len(queue).
+func NetworkBufferLengthExact() Macro {
+	return Macro{
+		Read: func(_ *Store, cur tlx.Val, _ string) (tlx.Val, tlx.Val, bool) {
+			return cur, tlx.Int(int64(len(recGet(cur, "queue").E))), true
+		},
+	}
+}
+
+// LeaderElection: the variable is the set of candidates; a read yields its least member
+// (0 when empty), a write removes the written member.
+func LeaderElection() Macro {
+	return Macro{
+		Read: func(_ *Store, cur tlx.Val, _ string) (tlx.Val, tlx.Val, bool) {
+			if len(cur.E) == 0 {
+				return cur, tlx.Int(0), true
+			}
+			return cur, cur.E[0], true // canonical sets are sorted
+		},
+		Write: func(_ *Store, cur tlx.Val, v tlx.Val, _ string) (tlx.Val, bool) {
+			var out []tlx.Val
+			for _, x := range cur.E {
+				if !tlx.Equal(x, v) {
+					out = append(out, x)
+				}
+			}
+			return tlx.Set(out...), true
+		},
+	}
+}
+
+// BlockingChannel: read pops the head (await non-empty), write appends.
+func BlockingChannel() Macro {
+	return Macro{
+		Read: func(_ *Store, cur tlx.Val, _ string) (tlx.Val, tlx.Val, bool) {
+			if len(cur.E) == 0 {
+				return cur, tlx.Val{}, false
+			}
+			return Tail(cur), cur.E[0], true
+		},
+		Write: func(_ *Store, cur tlx.Val, v tlx.Val, _ string) (tlx.Val, bool) { return Append(cur, v), true },
 	}
 }
